@@ -1,5 +1,5 @@
 """Per-property claim texts for MANIFEST.json (source of truth; run tools/gen_manifest.py)."""
-HOOK_COMMITS = ["f7d18a2"]
+HOOK_COMMITS = ["f7d18a2", "ab8b224"]
 NOTES = ("Every check is decided by Kani 0.68 / CBMC 6.11 (SAT) over the real crate, recompiled from /repo's working tree through a path dependency. "
          "check.py exit codes: 0 = all obligations hold within the stated bounds; 1 = VIOLATION (counterexample replayed natively against the real crate); "
          "2 = inconclusive (timeout / out of memory / unsatisfied cover witness / stub not applied / counterexample that does not reproduce) - never a pass. "
